@@ -41,6 +41,15 @@ func inj(tag string, q byte) scen.Step {
 func handle(h int) scen.Step { return scen.Step{Op: "handle", H: h} }
 
 var workloads = map[string]workload{
+	// requests in flight while a hand-written loop switches clients make-before-break
+	"sw1": {Steps: []scen.Step{pub(1, "a"), op("switch"), pub(2, "b"), sub(ss("u/s1", 1)), op("switch"), pub(1, "c"), pub(2, "d"), op("cut"), pub(1, "e"), op("switch"), unsub("u/s1"), pub(2, "f")}},
+	// make-before-break: the hand-written loops install a new client while the previous connection is still open and
+	// a message arrives on it (for the library's own loop "switch" does nothing)
+	"in8": {Pre: []scen.Step{handle(1)}, OnC: [][]scen.InMsg{{{Tag: "m0", QoS: 1}}, {{Tag: "n0", QoS: 0}}},
+		Steps: []scen.Step{pubw(1, "a"), inj("i1", 1), op("switch"), pub(1, "b"), inj("i2", 1), handle(2), op("switch"), pub(1, "c"), op("cut"), pub(1, "d"), op("switch"), inj("i3", 2), pub(1, "e")}},
+	// one-shot handlers: every handler installs its successor from inside the callback, across reconnects
+	"in7": {Pre: []scen.Step{handle(80)}, OnC: [][]scen.InMsg{{{Tag: "m0", QoS: 1}, {Tag: "m1", QoS: 0}}, {{Tag: "n0", QoS: 1}, {Tag: "n1", QoS: 2}}},
+		Steps: []scen.Step{pub(1, "a"), inj("i1", 1), pub(1, "b"), op("cut"), pub(1, "c"), inj("i2", 0), inj("i3", 2), pub(2, "d"), op("cut"), pub(1, "e"), inj("i4", 1), pub(1, "f")}},
 	// keep-alive running: PINGREQ/PINGRESP interleave with the exchanges; a silent period ends a connection by ping timeout
 	"ka": {PingMs: 2, TimeoutMs: 9, Steps: []scen.Step{pub(1, "a"), pub(2, "b"), {Op: "sleep", Ms: 5}, pub(1, "c"), op("silentping"), pub(2, "d"), {Op: "sleep", Ms: 14}, sub(ss("u/s1", 1)), op("pingok"), pub(1, "e"), {Op: "sleep", Ms: 5}, pub(2, "f")}},
 	// a responding handler publishes through the retrying client from inside the reader goroutine
